@@ -79,6 +79,13 @@ def check_has_all(cx: Cx, q: str, field: str):
                                                                     implies(p.cond, mk_cmp(App('len', (va,)), '==', Num(0))) is None):
                 seen.add('true-empty')      # `if not types: return True`: all-of over an empty template
                 continue
+            if not loops and va is not None and implies(p.cond, mk_cmp(App('len', (va,)), '==', Num(1))) is None:
+                # a fast path for a one-type template: the answer is that one membership
+                from sa.terms import BoolT as _B1
+                one = AIn(Sub(va, Num(0)), comps)
+                if isinstance(v, _B1) and compare(f_and(p.cond, v.f), f_and(p.cond, one)) is None:
+                    seen.add('one-type')
+                    continue
             if not loops or strip_versions(loops[0].data.get('iter')) != va:
                 ok = False
                 cx.violation('R-GUARD', fn.qualname, 'tests-every-listed-type', f"{fn.name} does not iterate its template {va!r}", where=cx.where(fn))
@@ -183,6 +190,9 @@ def _rest(cx: Cx):
                             where=where, function=ga.qualname)
             reported.add('inconclusive')
             continue
+        from .common import known_empty_on
+        if lf.elem is None and known_empty_on(p.cond, agents):
+            continue            # `if not self.agents: return []`: an empty environment has no matching agents
         if lf.elem is None:
             # an empty list on this path: acceptable only if nothing can match, i.e. never for a populated environment
             viol('R-GUARD', 'lists-the-matching-agents', f"get_agents returns an empty list on the path [{p.cond!r}]", where)
